@@ -169,6 +169,7 @@ def run(ctx):
                    "`%s`: the result is scaled by pow(10, e), which is not correctly rounded (1e23 parses to 1.0000000000000001e23, 5e-324 to 0)" % (show(par) if par else show(c)))
     ctx.ob("R18.3", "pstrtod|lint-ran", True, ps.loc(), "%d inexact-accumulation sites reported" % n_l)
     exponent_sign(ctx)
+    grisu_round(ctx)
 
 def _ev(db, n, env):
     """Evaluate a small integer expression tree; env maps field/param short names to ints."""
@@ -331,4 +332,66 @@ def exponent_sign(ctx):
         ctx.ob("R18.5", "get_number|exponent-sign", consts == {43, 45}, fn.loc(node),
                "the sign test `%s` accepts %s" % (show(node["c"])[:60], " and ".join("'%s'" % chr(k) for k in sorted(consts))))
     ctx.floor("R18.5", "exponent-sign tests", n, 1)
+
+
+
+
+def grisu_round(ctx):
+    """R18.6: Grisu2's weeding step (Loitsch 2010, fig. `round_weed` as used for shortest output): the last digit is
+    decremented while the candidate stays inside the rounding interval (rest < wp_w and delta - rest >= ten_kappa) and
+    the decrement brings it closer to w (rest + ten_kappa < wp_w, or wp_w - rest > rest + ten_kappa - wp_w).  The loop
+    condition is evaluated from its expression tree on a grid of (delta, rest, ten_kappa, wp_w) and compared."""
+    import itertools
+    db = ctx.db
+    ctx.rule("R18.6", "GrisuRound's loop condition, evaluated on a grid of (delta, rest, ten_kappa, wp_w), equals Grisu2's: rest < wp_w && delta - rest >= ten_kappa && (rest + ten_kappa < wp_w || wp_w - rest > rest + ten_kappa - wp_w); the body decrements the last digit and adds ten_kappa to rest")
+    fns = db.fns("GrisuRound")
+    if not fns:
+        ctx.broken("GrisuRound not found")
+    fn = fns[0]
+    loops = [n for n in fn.walk() if n.get("k") == "while"]
+    if len(loops) != 1:
+        ctx.broken("GrisuRound: expected one while loop")
+    lp = loops[0]
+    M = (1 << 64) - 1
+    grid = [0, 1, 2, 3, 5, 8, 13, 21]
+    bad = []
+    n = 0
+    try:
+        for delta, rest, tk, w in itertools.product(grid, grid, [1, 2, 3, 5, 8], grid):
+            if rest > delta:
+                continue      # the caller guarantees rest <= delta
+            n += 1
+            env = {"delta": delta, "rest": rest, "ten_kappa": tk, "wp_w": w}
+            got = bool(_ev_u64(db, lp["c"], env))
+            want = rest < w and ((delta - rest) & M) >= tk and (((rest + tk) & M) < w or ((w - rest) & M) > ((rest + tk - w) & M))
+            if got != want and len(bad) < 3:
+                bad.append("delta=%d rest=%d ten_kappa=%d wp_w=%d: loop %s, Grisu2 %s" % (delta, rest, tk, w, "continues" if got else "stops", "continues" if want else "stops"))
+    except ValueError as e:
+        bad.append("not evaluable: %s" % e)
+    ctx.ob("R18.6", "GrisuRound|weeding-condition", not bad, fn.loc(lp), "; ".join(bad) if bad else "equal on %d grid points" % n)
+    ctx.floor("R18.6", "grid points", n, 1000)
+    dec = any(x.get("k") == "un" and x.get("op") in ("--", "post--") for x in walk(lp.get("body") or {}))
+    inc = any(x.get("k") == "bin" and x.get("op") == "+=" and (local_ref(x.get("x")) or {}).get("n") == "rest" and (local_ref(x.get("y")) or {}).get("n") == "ten_kappa" for x in walk(lp.get("body") or {}))
+    ctx.ob("R18.6", "GrisuRound|body", dec and inc, fn.loc(lp), "the body decrements the digit and advances rest by ten_kappa")
+
+
+def _ev_u64(db, n, env):
+    """_ev with uint64 wrap-around for + and - (GrisuRound computes in uint64_t)."""
+    M = (1 << 64) - 1
+    n = strip_casts(n)
+    if n is None:
+        raise ValueError("empty")
+    k = n.get("k")
+    if k == "bin" and n.get("op") in ("+", "-"):
+        a, b = _ev_u64(db, n["x"], env), _ev_u64(db, n["y"], env)
+        return (a + b) & M if n["op"] == "+" else (a - b) & M
+    if k == "bin" and n.get("op") in ("&&", "||", "<", ">", "<=", ">=", "==", "!="):
+        a, b = _ev_u64(db, n["x"], env), _ev_u64(db, n["y"], env)
+        return {"&&": lambda: int(bool(a) and bool(b)), "||": lambda: int(bool(a) or bool(b)), "<": lambda: int(a < b), ">": lambda: int(a > b),
+                "<=": lambda: int(a <= b), ">=": lambda: int(a >= b), "==": lambda: int(a == b), "!=": lambda: int(a != b)}[n["op"]]()
+    if k == "ref" and n.get("n") in env:
+        return env[n["n"]]
+    if k == "int":
+        return int(n["v"])
+    raise ValueError("node %s in %s" % (k, show(n)[:30]))
 
